@@ -85,3 +85,135 @@ def o_c04(rec, world, hist):
 
 
 ORACLES = {"C01": o_c01, "C02": o_c02, "C04": o_c04}
+
+
+# ---- C06 / C07 / C10 / C13 / C15 -------------------------------------------
+def gen_c06(seed, tier):
+    desc, rng = base_desc(seed, tier, faults=True, p_dep=0.35)
+    op = desc["ops"][0]
+    op["cfg"]["max_errors"] = rng.choice([0, 0, 1, 2, 5, None])
+    if not op["faults"]["calls"]:
+        calls = [n["id"] for n in desc["world"]["nodes"] if n["kind"] == "call"]
+        if calls:
+            op["faults"]["calls"][str(rng.choice(calls))] = dict(exc=rng.choice(["E1", "B1"]))
+    return desc
+
+
+def gen_c07(seed, tier):
+    rng0 = worldgen.child_rng(seed, "c07")
+    mode = rng0.random()
+    if mode < 0.25:
+        return gen_cyclic(seed, tier, rng0)
+    desc, rng = base_desc(seed, tier, faults=rng0.random() < 0.6, p_dep=0.3)
+    n = len(desc["world"]["nodes"])
+    desc["ops"][0]["cfg"]["max_workers"] = rng.choice([1, 2, 3, n, n + 1, n + 3])
+    return desc
+
+
+def gen_cyclic(seed, tier, rng):
+    registry = rng.random() < 0.4
+    desc, rng2 = base_desc(seed, tier, registry=registry, p_unpack=0.0)
+    world = desc["world"]
+    nodes = ref.by_id(world)
+    ds = ref.deps_star(world)
+    # the run must examine: everything with a registry, ancestors of the output without
+    if registry:
+        examined = set(nodes)
+    else:
+        examined = set()
+        if world.get("output") is not None:
+            for r in ref.spec_refs(world["output"]):
+                examined.add(r)
+                examined |= ds[r]
+    cands = []
+    for v in sorted(examined):
+        if nodes[v]["kind"] in ("item", "unpack"):
+            continue
+        for u in sorted(ds[v] | {v}):
+            if nodes[u]["kind"] in ("item", "unpack", "src") and u != v:
+                continue
+            if u in examined:
+                cands.append((v, u))  # edge v -> u closes a cycle (u is upstream of v, or u == v)
+    if not cands:
+        desc["cyclic"] = False
+        return desc
+    v, u = rng.choice(cands)
+    kind = rng.choice(["dep", "dep", "pos", "kw"])
+    if nodes[u]["kind"] != "call":
+        kind = "dep"
+    if kind == "dep":
+        world["back_edges"] = [[v, u]]
+    else:
+        world["back_arg_edges"] = [[v, u, kind]]
+    desc["cyclic"] = True
+    on_cycle = [x for x in nodes if (x == v or x in ds[v]) and (x == u or u in ds[x])]
+    desc["cycle_literal_only"] = all(nodes[x]["kind"] == "lit" for x in on_cycle)
+    desc["cycle_registry"] = registry
+    return desc
+
+
+def gen_c10(seed, tier):
+    rng0 = worldgen.child_rng(seed, "c10")
+    flaky = rng0.random() < 0.5
+    desc, rng = base_desc(seed, tier, p_dep=0.3, durs=(0.0, 1.0, 1.0, 2.0, 5.0))
+    world = desc["world"]
+    op = desc["ops"][0]
+    op["faults"] = dict(calls=worldgen.gen_call_faults(rng, world, p_fail=0.3, excs=("E1", "E2", "B1"), flaky=flaky))
+    op["cfg"]["retry"] = rng.choice([None, 1, 2, 3, 4, ["custom", 2], ["custom", 3]])
+    op["cfg"]["max_errors"] = rng.choice([0, 1, 2, 3, None, None])
+    return desc
+
+
+def gen_c13(seed, tier):
+    rng0 = worldgen.child_rng(seed, "c13")
+    registry = rng0.random() < 0.5
+    desc, rng = base_desc(seed, tier, registry=registry, faults=rng0.random() < 0.4)
+    return desc
+
+
+def gen_c15(seed, tier):
+    rng0 = worldgen.child_rng(seed, "c15")
+    registry = rng0.random() < 0.4
+    desc, rng = base_desc(seed, tier, registry=registry, faults=rng0.random() < 0.5,
+                          p_unpack=0.0 if registry else 0.08)
+    op = desc["ops"][0]
+    op["cfg"]["progress"] = rng.choice(["rec", "rec", "rec2"])
+    op["cfg"]["obs_yield"] = rng.random() < 0.5
+    op["cfg"]["max_errors"] = rng.choice([0, 1, 3, None])
+    if "faults" in op:
+        for f in op["faults"]["calls"].values():
+            if rng.random() < 0.7:
+                f["exc"] = rng.choice(["E1", "E2"])
+    return desc
+
+
+GEN.update({"C06": gen_c06, "C07": gen_c07, "C10": gen_c10, "C13": gen_c13, "C15": gen_c15})
+
+
+def o_c06(rec, world, hist):
+    return O.o_fail(rec, world, hist)
+
+
+def o_c07(rec, world, hist):
+    if hist.desc.get("cyclic"):
+        out = O.o_cycle(rec, world, hist)
+        for v in out:
+            v["tags"].update(literal_only=bool(hist.desc.get("cycle_literal_only")),
+                             registry=bool(hist.desc.get("cycle_registry")))
+        return out
+    return O.o_term(rec, world, hist)
+
+
+def o_c10(rec, world, hist):
+    return O.o_limits(rec, world, hist)
+
+
+def o_c13(rec, world, hist):
+    return O.o_unmodified(rec, world, hist)
+
+
+def o_c15(rec, world, hist):
+    return O.o_progress(rec, world, hist)
+
+
+ORACLES.update({"C06": o_c06, "C07": o_c07, "C10": o_c10, "C13": o_c13, "C15": o_c15})
